@@ -120,7 +120,14 @@ impl SizeManifestBuilder {
         }
 
         let entry_count = self.entries.len() as u32;
-        let total_size: u64 = self.entries.iter().map(|e| e.esize).sum();
+        let total_size = self
+            .entries
+            .iter()
+            .try_fold(0u64, |total, e| total.checked_add(e.esize))
+            .ok_or(SizeError::ValueTooLarge {
+                value: u64::MAX,
+                bytes: 8,
+            })?;
 
         // Resize tag bit masks to match entry count. `tag_file` accepts indices
         // of entries that were never added: bits beyond the last entry must not
